@@ -463,7 +463,134 @@ def unit_create(nlines, requested):
     return run
 
 
+class ConfigCreateModels(Models18):
+    """externals of TorConfig.create_socks_endpoint: post_bootstrap (already fired), TorConfig.save (contract C10: sends every
+    pending list option whole, in list order, in one SETCONF - here it records the SocksPort list it is asked to send and
+    either succeeds or fails with the TorProtocolError of the refused SETCONF)"""
+    def attr_hook(self, ex, path, obj, name):
+        if isinstance(obj, VInst) and obj.cls.__name__ == 'TorConfig' and name == 'post_bootstrap':
+            return [(path, VOpaque('d_bootstrap', 1))]
+        return Models18.attr_hook(self, ex, path, obj, name)
+
+    def contract_for(self, ex, path, f, args, kw):
+        if f.qualname == 'TorConfig.save':
+            lst = path.heap[('f', f.bound.oid, '__SocksPort')]
+            self.glog_add(path, 'saved', tuple(ex.list_items(path, lst)))
+            return [(path, VOpaque('d_save', 1))]
+        return Models18.contract_for(self, ex, path, f, args, kw)
+
+    def await_(self, ex, path, fr, v, node):
+        import txtorcon.torcontrolprotocol as tcp
+        self.assumptions.add('A3 inlineCallbacks: a yield resumes with the Deferred result or throws its failure into the generator')
+        kind = v.kind if isinstance(v, VOpaque) else '?'
+        if kind == 'd_bootstrap':
+            return [(path, VOpaque('result', 1))]
+        if kind == 'd_save':
+            pr = path.fork()
+            b = z3.Bool('tor_refuses_the_setconf')
+            pr.assume(b)
+            path.assume(z3.Not(b))
+            self.glog_add(path, 'awaited', 'ok')
+            self.glog_add(pr, 'awaited', 'refused')
+            exc = ex.new_inst(pr, tcp.TorProtocolError)
+            pr.heap[('f', exc.oid, 'code')] = VInt(z3.IntVal(552))
+            pr.heap[('f', exc.oid, 'text')] = VStr(z3.String('refusal_text'))
+            pr.heap[('f', exc.oid, 'args')] = VTuple([VInt(z3.IntVal(552)), VStr(z3.String('refusal_text'))])
+            return [(path, VOpaque('result', 2)), (pr, Raise(exc))]
+        raise Unsupported('await of %r' % (v,))
+
+
+def unit_config_create(req):
+    """TorConfig.create_socks_endpoint over two configured entries; req: None / 'present' / 'absent'"""
+    def run(ctx):
+        ctx.fn('txtorcon.torconfig', 'TorConfig.create_socks_endpoint')
+        import txtorcon.torconfig as tc
+        ex = ctx.ex
+        path = ctx.new_path()
+        cfg = ex.new_inst(path, tc.TorConfig)
+        e = [z3.String('entry0'), z3.String('entry1')]
+        for i, x in enumerate(e):
+            ctx.input('entry%d' % i, VStr(x))
+            path.assume(F_ntok(x) >= 1)
+            for c in split_axioms(x):
+                path.assume(c)
+            path.assume(z3.PrefixOf(F_tok(x, 0), x))
+            for c in '\t\n\r\x0b\x0c\x1c\x1d\x1e\x1f':
+                path.assume(z3.Not(z3.Contains(x, mk_str(c))))
+        items0 = [VStr(x) for x in e]
+        lst = ex.new_list(path, items0)
+        path.heap[('f', cfg.oid, '__SocksPort')] = lst
+        path.heap[('f', cfg.oid, '__unsaved')] = ex.new_dict(path, [])
+        path.heap[('g', 'line_contract')] = True
+        t0, t1 = F_tok(e[0], 0), F_tok(e[1], 0)
+        zero = mk_str('0')
+        if req is None:
+            arg = NONE
+        else:
+            r_ = z3.String('request')
+            ctx.input('request', VStr(r_))
+            path.assume(F_ntok(r_) >= 1)
+            for c in split_axioms(r_):
+                path.assume(c)
+            path.assume(z3.PrefixOf(F_tok(r_, 0), r_))
+            arg = VStr(r_)
+            w = F_tok(r_, 0)
+            if req == 'present':
+                path.assume(z3.Or(t0 == w, t1 == w))
+            else:
+                path.assume(z3.And(t0 != w, t1 != w))
+        ctx.cover('pre_satisfiable', path)
+        if req == 'absent':
+            ctx.cover('pre_an_existing_entry_is_0', path, e[0] == zero)
+        outs = ex.getattr_v(path, cfg, 'create_socks_endpoint')
+        outs = ex.call(outs[0][0], outs[0][1], [VOpaque('reactor', 1), arg], {})
+        n_ok = 0
+        for p, r in outs:
+            saved = ctx.models.glog(p, 'saved')
+            aw = ctx.models.glog(p, 'awaited')
+            now = ex.list_items(p, p.heap[('f', cfg.oid, '__SocksPort')])
+            same_list = p.heap[('f', cfg.oid, '__SocksPort')] is lst or getattr(p.heap[('f', cfg.oid, '__SocksPort')], 'lid', None) == lst.lid
+            if req == 'absent':
+                ok = len(saved) == 1 and len(saved[0]) == 3 and all(isinstance(x, VStr) for x in saved[0])
+                ctx.oblige('post.one_save_that_lists_every_existing_entry_verbatim_plus_the_new_one', p,
+                           zand(saved[0][0].t == e[0], saved[0][1].t == e[1], saved[0][2].t == r_) if ok else B(False),
+                           clause='added in a single SETCONF that re-lists every existing SOCKSPort entry exactly as Tor reported it plus the new one')
+                if 'refused' in aw:
+                    ctx.oblige('post.refusal_is_reported_to_the_caller', p, B(isinstance(r, Raise) and isinstance(r.exc, VInst) and r.exc.cls is RuntimeError))
+                    ctx.oblige('post.refused_port_is_taken_out_of_the_configuration_view_again', p,
+                               zand(B(same_list and len(now) == 2), *[now[i].t == e[i] for i in range(2)]) if len(now) == 2 else B(False),
+                               clause='when Tor refuses, the port is not configured (and the entries Tor reported stay as they were)')
+                    continue
+            else:
+                ctx.oblige('post.configuration_untouched_when_an_existing_port_serves', p,
+                           zand(B(len(saved) == 0 and same_list and len(now) == 2), *[now[i].t == e[i] for i in range(2)]) if len(now) == 2 else B(False),
+                           clause='a port the connected Tor already has configured is used without changing Tor\'s configuration')
+            if isinstance(r, Raise):
+                if req is None:
+                    ctx.oblige('post.refused_only_when_no_entry_is_usable', p, z3.And(t0 == zero, t1 == zero))
+                else:
+                    cname = r.exc.cls.__name__ if isinstance(r.exc, VInst) else '?'
+                    ctx.oblige('no_exception[%s]' % cname, p, B(False))
+                continue
+            n_ok += 1
+            used = ctx.models.glog(p, 'lines_used')
+            if len(used) != 1 or not isinstance(used[0], VStr):
+                ctx.oblige('post.exactly_one_line_is_turned_into_an_endpoint', p, B(False))
+                continue
+            u = used[0].t
+            if req is None:
+                ctx.oblige('post.first_usable_entry_is_used', p, z3.If(t0 != zero, u == e[0], z3.And(t1 != zero, u == e[1])),
+                           clause='a port the connected Tor already has configured is used; "0" is not a listener')
+            else:
+                ctx.oblige('post.endpoint_is_for_the_requested_line', p, u == r_)
+        if not n_ok:
+            ctx.oblige('some_normal_exit', path, B(False))
+    return run
+
+
 def make_models_for(unit_name):
+    if 'TorConfig.create_socks_endpoint' in unit_name:
+        return ConfigCreateModels()
     return CreateModels18() if '_create_socks_endpoint' in unit_name else Models18()
 
 
@@ -476,13 +603,17 @@ def units(tier='quick'):
             ('C18/_endpoint_from_socksport_line/with_options', unit_line('with_options')), ('C18/TorClientEndpoint.connect', unit_connect()),
             ('C18/TorConfig.socks_endpoint/any', unit_socks_endpoint(None)),
             ('C18/TorConfig.socks_endpoint/present', unit_socks_endpoint('present')),
-            ('C18/TorConfig.socks_endpoint/absent', unit_socks_endpoint('absent'))]
+            ('C18/TorConfig.socks_endpoint/absent', unit_socks_endpoint('absent')),
+            ('C18/TorConfig.create_socks_endpoint/any', unit_config_create(None)),
+            ('C18/TorConfig.create_socks_endpoint/present', unit_config_create('present')),
+            ('C18/TorConfig.create_socks_endpoint/absent', unit_config_create('absent'))]
 
 
 # ==========================================================================================
 from pyvc.report import adopt_twin
 F_REQ_AUTO = 'requested-auto-socksport-unusable'
-FINDING_PATTERNS = [(r'setconf_relists_existing_verbatim:TorConfig.create_socks_endpoint:entry_missing', F_AUTO),
+# (the listed finding is the 'auto' entry only: any other entry that is not re-listed is a violation)
+FINDING_PATTERNS = [(r"setconf_relists_existing_verbatim:TorConfig.create_socks_endpoint:entry_missing \| .*not re-listed verbatim: \['auto[^',]*'(, 'auto[^',]*')*\]$", F_AUTO),
                     (r"failed_after_setconf_ValueError \| .*\(req='auto'\)", F_REQ_AUTO)]
 twin, _replay_twin = adopt_twin('twin.tC18', FINDING_PATTERNS)
 
